@@ -225,3 +225,43 @@ func VerifC18Names() {
 		verifAssert(vNot(vStrEq(n1, n2)), "same-name-rejected")
 	}
 }
+
+// VerifC18Decimal: Decimal(P,S) binds to exactly the DecimalNN target its precision selects
+// (P<=9: 32, <=18: 64, <=38: 128, <=76: 256), for every precision 1..76, in both directions.
+func VerifC18Decimal() {
+	d1, d2 := verifU8("d1"), verifU8("d2")
+	verifAssume(vAnd(vAnd(d1 >= '0', d1 <= '7'), vAnd(d2 >= '0', d2 <= '9')))
+	p := int(d1-'0')*10 + int(d2-'0')
+	verifAssume(vAnd(p >= 1, p <= 76))
+	srv := ColumnType("Decimal(" + string([]byte{d1, d2}) + ", 2)")
+	class := 3
+	switch {
+	case p <= 9:
+		class = 0
+	case p <= 18:
+		class = 1
+	case p <= 38:
+		class = 2
+	}
+	targets := [4]ColumnType{ColumnTypeDecimal32, ColumnTypeDecimal64, ColumnTypeDecimal128, ColumnTypeDecimal256}
+	for i, t := range targets {
+		want := i != class
+		verifAssert(srv.Conflicts(t) == want, "decimal-precision-class")
+		verifAssert(t.Conflicts(srv) == want, "decimal-precision-class-sym")
+	}
+	// and through the binder: a zero-row header block against each typed target
+	var w refBuf
+	w.vint(1)
+	w.vint(0)
+	w.str("a")
+	w.str(string(srv))
+	w.u8(0)
+	mk := [4]func() ColResult{
+		func() ColResult { return new(ColDecimal32) }, func() ColResult { return new(ColDecimal64) },
+		func() ColResult { return new(ColDecimal128) }, func() ColResult { return new(ColDecimal256) },
+	}
+	k := verifChoice("target", 4)
+	var blk Block
+	err := blk.DecodeRawBlock(NewReader(bytes.NewReader(w.b)), 54460, Results{{Name: "a", Data: mk[k]()}})
+	verifAssert((err == nil) == (k == class), "decimal-binds-only-to-its-class")
+}
